@@ -324,6 +324,9 @@ def _docs(job, ctx):
         variants = [("prefix", i, doc[:i]) for i in range(len(doc))]
         variants += [("undecodable", 0, b"\xff\xfe\x00\x80" + doc[:10]), ("undecodable-mid", 0, doc[:len(doc) // 2] + b"\xff\xfe" + doc[len(doc) // 2:]),
                      ("garbage", 0, b"\x00\x01\x02not a document"), ("empty", 0, b"")]
+        if fmt in ("json", "yaml", "xml"):
+            # a byte that is not UTF-8 at every offset of the (text) document: inside names, values, markup
+            variants += [("bad-byte-at", i, doc[:i] + b"\xff" + doc[i:]) for i in range(len(doc) + 1)]
         if fmt == "xml":
             variants.append(("wrong-root", 0, doc.replace(b"<config", b"<other").replace(b"</config>", b"</other>")))
         # documents whose root is not a map (the formats that can write one): scalars, lists, and lists that start with
@@ -347,6 +350,8 @@ def _docs(job, ctx):
                 parse_fails = kind == "root-not-a-map"        # decodes, but not to a configuration tree
             except Exception:  # noqa
                 parse_fails = True
+            if kind == "bad-byte-at":
+                parse_fails = True        # by construction: not a document of a UTF-8 text format, whatever the decoder makes of it
             w = W.build_world(spec, hist)
             before = W.snapshot(w.cfg, with_ids=True)
             try:
@@ -390,7 +395,7 @@ def _includes(job, ctx):
 
     for fmt in ("json", "yaml", "xml", "bson", "pickle"):
         real_open(secret, "wb").write(cc.ConfigFormat.get(fmt).dumps(None, {"x": 9}))
-        for where in ("root", "nested", "chained"):
+        for where in ("root", "nested", "chained", "nested-flag-off"):
             for fault, path in (("missing", os.path.join(tmp, "nope.inc")), ("directory", os.path.join(tmp, "adir")), ("unreadable", secret),
                                 ("missing-relative", "nope-rel.inc"), ("unparseable", os.path.join(tmp, "garbage.inc"))):
                 for prior in ("fresh", "assigned", "dynamic", "env", "include-set"):
@@ -420,6 +425,11 @@ def _includes(job, ctx):
                         good = os.path.join(tmp, "good-%s.inc" % fmt)
                         real_open(good, "wb").write(cc.ConfigFormat.get(fmt).dumps(None, {"sub": {"x": 3, "l": [5], "include": path}}))
                         tree = {"x": 2, "y": "new", "include": good}
+                    elif where == "nested-flag-off":
+                        # the section that names the bad include is switched off by the very document (feature flag false)
+                        s.sub.enabled = cc.FeatureFlagField(default=True)
+                        s.sub.include = cc.IncludeField()
+                        tree = {"x": 2, "y": "new", "sub": {"enabled": False, "x": 3, "l": [5], "include": path}}
                     else:
                         s.sub.include = cc.IncludeField()
                         tree = {"x": 2, "y": "new", "sub": {"x": 3, "l": [5], "include": path}}
@@ -436,7 +446,7 @@ def _includes(job, ctx):
                         real_open(held, "wb").write(cc.ConfigFormat.get(fmt).dumps(None, {"y": "held"}))
                         if where in ("root", "chained"):
                             cfg.include = held
-                        if where in ("nested", "chained"):
+                        if where in ("nested", "chained", "nested-flag-off"):
                             cfg.sub.include = held
                         cfg.y = "held"
                     if prior == "dynamic":        # fields the configuration gained on the fly, which the document does not name
